@@ -59,6 +59,7 @@ def main():
     t0 = time.time()
     harness_errors = []
     n_hangs = 0
+    hangs = []
     signal.signal(signal.SIGALRM, _alarm)
     try:
         if hasattr(mod, "setup"):
@@ -88,7 +89,9 @@ def main():
                     hung = False
                     break
             if hung:
-                ctx.check("call terminates", False, key="hang", budget_s=2 * a.case_timeout)
+                # a wall-clock budget is never a verdict about persim: the run becomes INCONCLUSIVE (with the witness)
+                ctx.note("case_hang")
+                hangs.append({"case": k, "budget_s": 2 * a.case_timeout, "class": ctx.cls, "input": ctx.payload})
                 n_hangs += 1
                 if n_hangs >= 2:
                     ctx.note("aborted_after_hangs")
@@ -101,6 +104,8 @@ def main():
         harness_errors.append({"case": None, "error": repr(e), "tb": traceback.format_exc()[-3000:]})
     out = ctx.dump()
     out["harness_errors"] = harness_errors
+    from vmon.util import jsonable
+    out["hangs"] = jsonable(hangs)
     out["wall_s"] = time.time() - t0
     out["persim_file"] = persim.__file__
     with open(a.out, "w") as f:
